@@ -88,6 +88,24 @@ def gen_unitary(n: int, seed: int, kind: str = "haar") -> np.ndarray:
             g[j, i] = np.sin(t) * np.exp(-1j * a)
             u = g @ u
         return u
+    if kind == "near":
+        # near-identity / near-permutation: couplings of 1e-12 .. 1e-6, the
+        # "nearly zero entries" of the property text
+        u = np.identity(n, dtype=complex)
+        if rng.random() < 0.5:
+            u = u[rng.permutation(n)]
+        for _ in range(int(rng.integers(1, n + 1))):
+            i, j = rng.choice(n, 2, replace=False)
+            t = float(rng.choice([1e-12, 1e-10, 3e-10, 1e-9, 3e-9, 1e-8,
+                                  3e-8, 1e-7, 1e-6]))
+            a = rng.uniform(0, 6)
+            g = np.identity(n, dtype=complex)
+            g[i, i] = np.cos(t)
+            g[j, j] = np.cos(t)
+            g[i, j] = -np.sin(t) * np.exp(1j * a)
+            g[j, i] = np.sin(t) * np.exp(-1j * a)
+            u = g @ u
+        return u
     if kind == "block" and n >= 3:
         k = int(rng.integers(1, n))
         u = np.zeros((n, n), dtype=complex)
